@@ -7,6 +7,7 @@ unchanged.  Independently of the fixed mutation alphabet it evaluates the heap i
 NoSharedMutable on the real object graph and, for every shared mutable object found, tries a
 witness mutation through the derived side to show the source really changes."""
 from copy import copy
+import os
 from . import engine
 
 svg = None
@@ -427,6 +428,17 @@ def run(tier, seed):
         for case, r in engine.replay("harness.c18", [{"kind": v[1], "op": v[2], "hist": v[3]} for v in vals], chunk=100):
             run.record(case, r, key=r["class"])
         run.extra["simulated_histories_replayed"] = len(vals)
+        if tier == "thorough":
+            # unbounded argument on the specification (Apalache): Counts is inductive and the frame condition is an
+            # action invariant from every state satisfying it; a negative control shows the tool can refute
+            mod = os.path.join(engine.SPEC, "apalache", "APA_C18.tla")
+            res_a = {"IndInv_inductive": engine.run_apalache(mod, "IndInit", "IndInv"),
+                     "IndInv_initial": engine.run_apalache(mod, "Init", "IndInv", length=0),
+                     "Independent_action_invariant": engine.run_apalache(mod, "IndInit", "Independent"),
+                     "negative_control_refuted": engine.run_apalache(mod, "IndInit", "Control")}
+            run.extra["apalache_unbounded"] = res_a
+            if "error" in (res_a["IndInv_inductive"], res_a["IndInv_initial"], res_a["Independent_action_invariant"]) or res_a["negative_control_refuted"] == "ok":
+                raise engine.MachineryError("Apalache disagrees with the Alias specification: %s" % res_a)
     finally:
         engine.cleanup(work)
     run.rule = ("cases = states of MC_C18: (kind, derivation, history of <= MaxMut public mutations on either side); non-trivial = every "
